@@ -259,10 +259,12 @@ def check_property(prop, tier, seed, keep=False, verbose=False):
                 futs[ex.submit(run_unit, unit, workdir, seed, None, frozenset(), "main")] = ("main", un, None)
             # known-finding probes
             for k in kf.get("open", []):
-                if prop in k["properties"] and k["unit"] in unit_names and k.get("probe_labels"):
-                    unit = UNITS[k["unit"]]
-                    futs[ex.submit(run_unit, unit, workdir, seed, None, frozenset(k["probe_labels"]),
-                                   "probe_" + k["id"])] = ("probe", k["unit"], k)
+                k_units = k["unit"] if isinstance(k["unit"], list) else [k["unit"]]
+                for ku in k_units:
+                    if prop in k["properties"] and ku in unit_names and k.get("probe_labels"):
+                        unit = UNITS[ku]
+                        futs[ex.submit(run_unit, unit, workdir, seed, None, frozenset(k["probe_labels"]),
+                                       "probe_" + k["id"] + "_" + re.sub(r"[^A-Za-z0-9]", "", ku))] = ("probe", ku, k)
             extra_seeds = []
             if tier == "thorough":
                 for un in unit_names:
@@ -278,7 +280,7 @@ def check_property(prop, tier, seed, keep=False, verbose=False):
                 if kind == "main":
                     runs[un] = ur
                 elif kind == "probe":
-                    probes[extra["id"]] = (extra, ur)
+                    probes[extra["id"] + "@" + un] = (extra, ur)
                 elif kind == "twin":
                     runs.setdefault("__twins__", []).append((un, ur))
                 else:
